@@ -50,6 +50,8 @@ func (c *Module) Connect(conn *sqlite.Conn, args []string,
 
 	err = declare(table.SchemaString)
 	if err != nil {
+		// New registered the table: a rejected definition leaves nothing behind
+		_ = table.Disconnect()
 		return nil, fmt.Errorf("declare: %w", err)
 	}
 
